@@ -319,7 +319,10 @@ def plan_C13(tier, seed):
         record=[dict(name="c13_record", family="conc-record", args=["-conc-out", "{work}/ConcData.tla", "-conc-max-events", "60"])],
         tlc=jobs, parallel=2, race=True,
         replay=[dict(name="c13_replay", family="sched", inputs=[j["name"] for j in jobs]),
-                dict(name="c13_stress", family="stress", inputs=[], race=True)],
+                dict(name="c13_stress", family="stress", inputs=[], race=True),
+                # the cold-start phase happens once per process: two more processes
+                dict(name="c13_stress_b", family="stress", inputs=[], race=True),
+                dict(name="c13_stress_c", family="stress", inputs=[], race=True)],
         rule="the frame-event programs of two Validate calls per scenario (8 scenarios: $dynamicRef chains, regexps and "
              "required sets, unevaluated* annotations, uniqueItems hash seeds, recursion, oneOf/not) are RECORDED from the real "
              "code through the frame hook and handed to Concurrency.tla; TLC enumerates every interleaving of the two programs "
